@@ -91,6 +91,14 @@ def make_algo(n_iter, frac, count, power, route="settings", annealing=False):
             settings = AlgorithmSettings("mcmc_saem", n_iter=n_iter + 2, progress_bar=False, seed=0, **kw)
             settings.parameters.update({"n_iter": n_iter, "n_burn_in_iter_frac": frac, "n_burn_in_iter": count, "burn_in_step_power": power})
             return algorithm_factory(settings)
+        if route == "load_n_iter":
+            # an explicit count (the default ratio left in the settings), then only the number of iterations is changed through
+            # load_parameters: the explicit count stays what was asked
+            settings = AlgorithmSettings("mcmc_saem", n_iter=2 * n_iter + 5, progress_bar=False, seed=0,
+                                         n_burn_in_iter=count, burn_in_step_power=power, **({} if frac is None else {"n_burn_in_iter_frac": frac}), **kw)
+            algo = algorithm_factory(settings)
+            algo.load_parameters({"n_iter": n_iter})
+            return algo
         if route == "settings_reused":
             # one settings object serves two algorithms, the number of iterations being changed in between: the second
             # algorithm resolves its memory-less phase from what the settings say now
@@ -106,7 +114,7 @@ def make_algo(n_iter, frac, count, power, route="settings", annealing=False):
         return algo
 
 
-ROUTE_LABEL = {"settings": "", "load_parameters": ", through load_parameters", "set_after": ", options written into an existing settings object",
+ROUTE_LABEL = {"load_n_iter": ", n_iter changed afterwards through load_parameters", "settings": "", "load_parameters": ", through load_parameters", "set_after": ", options written into an existing settings object",
                "settings_reused": ", settings object reused after n_iter was changed"}
 
 
@@ -214,6 +222,8 @@ def configs(tier):
                             yield {"n_iter": n_iter, "frac": frac, "count": None, "power": power, "route": "set_after"}
                 yield {"n_iter": n_iter, "frac": None, "count": 1, "power": power, "route": "set_after"}
                 yield {"n_iter": n_iter, "frac": 0.5, "count": 1, "power": power, "route": "settings_reused"}
+                for count in (0, 1, n_iter):
+                    yield {"n_iter": n_iter, "frac": 0.9, "count": count, "power": power, "route": "load_n_iter"}
             if power in (0.8, 1) and n_iter >= 2:
                 # the same explicit counts given afterwards through load_parameters; and annealing switched on with a
                 # memory-less phase shorter than the annealing phase (default: 50% of the iterations)
